@@ -10,7 +10,7 @@ try:
     r = subprocess.run(["patch", "-p1", "-s", "-d", d, "-i", os.path.abspath(patch)])
     if r.returncode:
         print("PATCH-FAILED"); sys.exit(3)
-    env = dict(os.environ, LHASA_REPO=d, VERIF_EVIDENCE_DIR=os.path.join(d, 'evidence'))
+    env = dict(os.environ, LHASA_REPO=d, VERIF_EVIDENCE_DIR=os.path.join(d, 'evidence'), VERIF_REPLAY_DIR=os.path.join(d, 'replays'))
     r = subprocess.run(["/verif/check", pid, "--tier", tier], env=env, stdout=subprocess.PIPE, stderr=subprocess.STDOUT)
     out = r.stdout.decode(errors="replace")
     v = [l for l in out.splitlines() if l.startswith("VIOLATION")]
